@@ -1,7 +1,9 @@
 """C16 — a for loop equals its unrolling."""
 import itertools
 
+from bounded import gen
 from bounded.contract_enum import run_contract_enum
+from bounded.run_e2e import run_programs
 from checks.common import CheckRun
 
 EXPLANATION = (
@@ -37,4 +39,10 @@ def run(tier):
     bound = 6 if tier == "quick" else 12
     cr.bounded_check(run_contract_enum, "get_iteration_values-box", c16.giv_contract, _giv_args(bound),
                      f"all (start, stop, step) in [-{bound},{bound}]^2 x ([-{bound},{bound}] + default), list iterators, variable bounds through a resolver")
+    progs = gen.c16_scope(tier)
+    for optimize in (True, False):
+        cr.bounded_check(run_programs, f"e2e-loops-{'opt' if optimize else 'noopt'}", progs,
+                         f"{len(progs)} loop programs (ranges incl. descending / non-dividing steps / empty, lists, variable bounds, nesting, "
+                         f"body locals, iterator in literals, calls in bodies, parameters shadowing the iterator) judged against S3's unrolling; optimize={optimize}",
+                         cr.known, opts={"optimize": optimize})
     return cr.finish()
